@@ -53,7 +53,7 @@ def run(ctx) -> None:
                     ok = not lv.items
                     desc[field] = "[]" if ok else repr(lv)
                 else:
-                    ok = bool(re.fullmatch(r"re\.split\('.*',re\.match\(.*\)\.group\(3\)\)", lv.src)) and not any(
+                    ok = bool(re.fullmatch(r"re\.split\('.*',re\.match\(.*\)\.group\(3\)\)|<?re\.match\(.*\)\.group\(3\)>?\.split\(','\)", lv.src)) and not any(
                         lv.flags.get(k) for k in ("filters", "order", "sliced", "dedup"))
                     desc[field] = f"map over {lv.src[:40]}"
                 if not ok:
